@@ -153,6 +153,9 @@ type verdict struct {
 
 var pass = verdict{ok: true}
 
+// countOutcomes: outcome histograms are taken on the first run of a case only (not while shrinking)
+var countOutcomes = true
+
 // runCI executes one ClusterInfo-level case. It never records; the caller does (after shrinking).
 func runCI(c *rig.Ctx, cs Case) verdict {
 	if len(cs.History) == 0 {
@@ -202,6 +205,9 @@ func runCI(c *rig.Ctx, cs Case) verdict {
 			}
 		}
 		reals = append(reals, sr)
+		if countOutcomes {
+			c.Count("ci-sync:" + sr.Outcome)
+		}
 		// the fresh gateway given only this version. When the long-lived instance applied the version this is the
 		// public CreateClusterInfo (the direct judge); otherwise its body (buildClusterRESTConfig, NewEmptyClusterInfo,
 		// Sync) is run step by step, because a failing CreateClusterInfo returns nil and what it started could not be stopped.
